@@ -327,70 +327,38 @@ unsafe fn write_all_sub_paths(
     raw: *const u8,
 ) -> core::result::Result<(), rusl::Error> {
     let len = buf.len();
-    let mut it = 1;
-    loop {
-        // Iterate down
-        let ind = len - it;
-        if ind == 0 {
-            break;
-        }
-
-        let byte = buf[ind];
-        if byte == b'/' {
+    // Create every ancestor, shallowest first. One that already exists is fine,
+    // anything else (not a directory, no permission..) is reported.
+    for i in 1..len {
+        if buf[i] == b'/' {
             // Swap slash for null termination to make a valid path
-            buf[ind] = NULL_BYTE;
-
-            return match rusl::unistd::mkdir(
-                UnixStr::from_bytes_unchecked(&buf[..=ind]),
+            buf[i] = NULL_BYTE;
+            let res = rusl::unistd::mkdir(
+                UnixStr::from_bytes_unchecked(&buf[..=i]),
                 Mode::from(0o755),
-            ) {
-                // Successfully wrote, traverse down
-                Ok(()) => {
-                    // Replace the null byte to make a valid path concatenation
-                    buf[ind] = b'/';
-                    for i in ind + 1..len {
-                        // Found next
-                        if buf[i] == b'/' {
-                            // Swap slash for null termination to make a valid path
-                            buf[i] = NULL_BYTE;
-                            rusl::unistd::mkdir(
-                                UnixStr::from_bytes_unchecked(&buf[..=i]),
-                                Mode::from(0o755),
-                            )?;
-                            // Swap back to continue down
-                            buf[i] = b'/';
-                        }
-                    }
-                    // if we end on a slash we don't have to write the last part
-                    if unsafe { raw.add(len - 1).read() } == b'/' {
-                        return Ok(());
-                    }
-                    // We know the actual length is len + 1 and null terminated, try write full
-                    rusl::unistd::mkdir(
-                        UnixStr::from_bytes_unchecked(core::slice::from_raw_parts(raw, len + 1)),
-                        Mode::from(0o755),
-                    )?;
-                    Ok(())
-                }
-                Err(e) => {
-                    if let Some(code) = e.code {
-                        if code == Errno::ENOENT {
-                            it += 1;
-                            // Put slash back, only way we end up here is if we tried to write
-                            // previously replacing the slash with a null-byte
-                            buf[ind] = b'/';
-                            continue;
-                        } else if code == Errno::EEXIST {
-                            return Ok(());
-                        }
-                    }
-                    Err(e)
-                }
-            };
+            );
+            // Swap back to continue down
+            buf[i] = b'/';
+            forgive_exists(res)?;
         }
-        it += 1;
     }
-    Ok(())
+    // Then the directory itself, through the original pointer,
+    // we know the actual length is len + 1 and null terminated
+    forgive_exists(rusl::unistd::mkdir(
+        UnixStr::from_bytes_unchecked(core::slice::from_raw_parts(raw, len + 1)),
+        Mode::from(0o755),
+    ))
+}
+
+/// A directory that is already there is what `create_dir_all` wants
+#[inline]
+fn forgive_exists(
+    res: core::result::Result<(), rusl::Error>,
+) -> core::result::Result<(), rusl::Error> {
+    match res {
+        Err(e) if e.code == Some(Errno::EEXIST) => Ok(()),
+        other => other,
+    }
 }
 
 pub struct Directory(OwnedFd);
